@@ -168,6 +168,191 @@ fn gen_sample(r: &mut Rng, fmt: Fmt) -> i128 {
 }
 
 // ------------------------------------------------------------------------------------------
+// FLAC subset: the independent encoder (twin of C18/ModelFlac.v `flac_encode_bad`)
+// ------------------------------------------------------------------------------------------
+#[derive(Clone, Debug, PartialEq)]
+pub enum Sub {
+	Const(i64),
+	Verb(Vec<i64>),
+}
+#[derive(Clone, Debug, PartialEq)]
+pub struct FlFrame {
+	pub n: usize, // block size of this frame
+	pub subs: Vec<Sub>, // one per channel
+}
+#[derive(Clone, Copy, Debug, PartialEq)]
+pub struct FlSpec {
+	pub bps: u32, // 8, 16, 24
+	pub ch: u32,
+	pub rate: u32,
+	pub bs: u32, // STREAMINFO min = max block size
+}
+/// a defect of ONE frame that leaves the container (sync code, frame lengths) intact
+#[derive(Clone, Copy, Debug, PartialEq)]
+pub enum Defect {
+	/// subframe type code `t` (reserved in FLAC) in the first subframe header, CRCs correct
+	ReservedSubframe(u8),
+	/// reserved sample-size code (3 or 7) in the frame header, CRC-8 and CRC-16 recomputed
+	ReservedSampleSize(u8),
+	/// "wasted bits" flag set in the first subframe header although no such bits were removed, CRC-16 recomputed
+	WastedFlag,
+	/// the frame's CRC-16 xor `d` (d != 0)
+	BadCrc16(u16),
+	/// the header's CRC-8 xor `d` (d != 0), CRC-16 recomputed over the changed frame
+	BadCrc8(u8),
+}
+impl Defect {
+	fn code(self) -> (i128, i128) {
+		match self {
+			Defect::ReservedSubframe(t) => (1, t as i128),
+			Defect::ReservedSampleSize(c) => (2, c as i128),
+			Defect::WastedFlag => (3, 0),
+			Defect::BadCrc16(d) => (4, d as i128),
+			Defect::BadCrc8(d) => (5, d as i128),
+		}
+	}
+}
+pub fn crc8(bytes: &[u8]) -> u8 {
+	let mut crc = 0u8;
+	for b in bytes {
+		crc ^= b;
+		for _ in 0..8 {
+			crc = if crc & 0x80 != 0 { (crc << 1) ^ 0x07 } else { crc << 1 };
+		}
+	}
+	crc
+}
+pub fn crc16(bytes: &[u8]) -> u16 {
+	let mut crc = 0u16;
+	for b in bytes {
+		crc ^= (*b as u16) << 8;
+		for _ in 0..8 {
+			crc = if crc & 0x8000 != 0 { (crc << 1) ^ 0x8005 } else { crc << 1 };
+		}
+	}
+	crc
+}
+fn ss_code(bps: u32) -> u8 {
+	match bps {
+		8 => 1,
+		16 => 4,
+		24 => 6,
+		_ => panic!("bps"),
+	}
+}
+fn be_sample(out: &mut Vec<u8>, w: usize, x: i64) {
+	let u = x.rem_euclid(1i64 << (8 * w)) as u64;
+	for k in (0..w).rev() {
+		out.push(((u >> (8 * k)) & 0xFF) as u8);
+	}
+}
+pub fn flac_stream_header(sp: &FlSpec, total: u64) -> Vec<u8> {
+	let mut b = vec![];
+	b.extend_from_slice(b"fLaC");
+	b.extend_from_slice(&[0x80, 0, 0, 34]);
+	b.extend_from_slice(&(sp.bs as u16).to_be_bytes());
+	b.extend_from_slice(&(sp.bs as u16).to_be_bytes());
+	b.extend_from_slice(&[0; 6]);
+	let packed: u64 = ((sp.rate as u64) << 44) | (((sp.ch - 1) as u64) << 41) | (((sp.bps - 1) as u64) << 36) | total;
+	b.extend_from_slice(&packed.to_be_bytes());
+	b.extend_from_slice(&[0; 16]);
+	b
+}
+pub fn flac_frame(sp: &FlSpec, idx: usize, fr: &FlFrame, d: Option<Defect>) -> Vec<u8> {
+	assert!(idx < 128 && fr.n >= 1 && fr.n <= 256 && fr.subs.len() == sp.ch as usize);
+	let w = (sp.bps / 8) as usize;
+	let mut f = vec![0xFF, 0xF8, 0x60];
+	let ss = match d {
+		Some(Defect::ReservedSampleSize(c)) => c,
+		_ => ss_code(sp.bps),
+	};
+	f.push((((sp.ch - 1) as u8) << 4) | (ss << 1));
+	f.push(idx as u8);
+	f.push((fr.n - 1) as u8);
+	let mut c8 = crc8(&f);
+	if let Some(Defect::BadCrc8(x)) = d {
+		c8 ^= x;
+	}
+	f.push(c8);
+	for (ci, s) in fr.subs.iter().enumerate() {
+		let mut h: u8 = match s {
+			Sub::Const(_) => 0,
+			Sub::Verb(_) => 2,
+		};
+		if ci == 0 {
+			match d {
+				Some(Defect::ReservedSubframe(t)) => h = t << 1,
+				Some(Defect::WastedFlag) => h |= 1,
+				_ => {}
+			}
+		}
+		f.push(h);
+		match s {
+			Sub::Const(v) => be_sample(&mut f, w, *v),
+			Sub::Verb(xs) => {
+				assert!(xs.len() == fr.n);
+				for &x in xs {
+					be_sample(&mut f, w, x);
+				}
+			}
+		}
+	}
+	let mut c16 = crc16(&f);
+	if let Some(Defect::BadCrc16(x)) = d {
+		c16 ^= x;
+	}
+	f.extend_from_slice(&c16.to_be_bytes());
+	f
+}
+/// returns the file and the byte offset of every frame (plus the end)
+pub fn flac_encode(sp: &FlSpec, frames: &[FlFrame], bad: Option<(usize, Defect)>) -> (Vec<u8>, Vec<usize>) {
+	let total: u64 = frames.iter().map(|f| f.n as u64).sum();
+	let mut b = flac_stream_header(sp, total);
+	let mut offs = vec![];
+	for (i, fr) in frames.iter().enumerate() {
+		offs.push(b.len());
+		let d = match bad {
+			Some((k, d)) if k == i => Some(d),
+			_ => None,
+		};
+		b.extend(flac_frame(sp, i, fr, d));
+	}
+	offs.push(b.len());
+	(b, offs)
+}
+/// the audio: per frame, `n` time steps of `ch` samples
+pub fn flac_samples(fr: &FlFrame) -> Vec<Vec<i64>> {
+	(0..fr.n)
+		.map(|t| {
+			fr.subs
+				.iter()
+				.map(|s| match s {
+					Sub::Const(v) => *v,
+					Sub::Verb(xs) => xs[t],
+				})
+				.collect()
+		})
+		.collect()
+}
+/// the float a FLAC sample is specified to load as: x / 2^(bps-1), exactly representable
+fn flac_conv(bps: u32, x: i64) -> f32 {
+	(x as f64 / (1u64 << (bps - 1)) as f64) as f32
+}
+pub fn flac_expected(sp: &FlSpec, frames: &[FlFrame]) -> Option<Vec<(f32, f32)>> {
+	let mut v = vec![];
+	for fr in frames {
+		for s in flac_samples(fr) {
+			match s.len() {
+				1 => v.push((flac_conv(sp.bps, s[0]), flac_conv(sp.bps, s[0]))),
+				2 => v.push((flac_conv(sp.bps, s[0]), flac_conv(sp.bps, s[1]))),
+				_ => return None,
+			}
+		}
+	}
+	Some(v)
+}
+
+// ------------------------------------------------------------------------------------------
 // running the real loaders (panic capture + watchdog)
 // ------------------------------------------------------------------------------------------
 #[derive(Clone, Debug, PartialEq)]
@@ -655,7 +840,66 @@ fn index_coded(n: usize) -> Vec<i128> {
 	v
 }
 
+
+fn probe_flac() {
+	let mk = |bps: u32, ch: u32, nfr: usize, bs: usize| -> (FlSpec, Vec<FlFrame>) {
+		let sp = FlSpec { bps, ch, rate: 44100, bs: bs as u32 };
+		let mut c = 0i64;
+		let frames = (0..nfr)
+			.map(|_| FlFrame { n: bs, subs: (0..ch).map(|_| Sub::Verb((0..bs).map(|_| { c += 1; c }).collect())).collect() })
+			.collect();
+		(sp, frames)
+	};
+	for (bps, ch, nfr, bs) in [(16u32, 1u32, 6usize, 16usize), (8, 2, 6, 32), (24, 2, 5, 64), (16, 2, 8, 64)] {
+		let (sp, frames) = mk(bps, ch, nfr, bs);
+		let exp = flac_expected(&sp, &frames).unwrap();
+		let (b, offs) = flac_encode(&sp, &frames, None);
+		let got = load_static(&b);
+		let ok = matches!(&got, Load::Ok { rate, frames } if *rate == 44100 && same_frames(frames, &exp).is_none());
+		eprintln!("valid bps={} ch={} frames={}x{} ({} bytes): {} exact={}", bps, ch, nfr, bs, b.len(), got.short(), ok);
+		let describe = |got: &Load| -> String {
+			match got {
+				Load::Ok { frames, .. } => {
+					// which source frame does each output block come from?
+					let mut blocks = vec![];
+					for c in frames.chunks(bs) {
+						let pos = (0..nfr).find(|&j| c.len() == bs && same_frames(c, &exp[j * bs..(j + 1) * bs]).is_none());
+						blocks.push(match pos { Some(j) => format!("{}", j), None => format!("?{}", c.len()) });
+					}
+					format!("Ok {} frames: blocks [{}]", frames.len(), blocks.join(","))
+				}
+				g => g.short(),
+			}
+		};
+		for k in [0usize, 1, nfr / 2, nfr - 1] {
+			for d in [Defect::ReservedSubframe(2), Defect::ReservedSampleSize(3), Defect::ReservedSampleSize(7), Defect::WastedFlag, Defect::BadCrc16(1), Defect::BadCrc8(0x55)] {
+				let (b, _) = flac_encode(&sp, &frames, Some((k, d)));
+				let got = load_static(&b);
+				let p = stream_play(&b, 44100, 0, &[], 4096);
+				let so: Vec<(f32, f32)> = p.out.iter().cloned().filter(|f| f.0 != 0.0 || f.1 != 0.0).collect();
+				eprintln!("  k={} {:?}: static {} | stream open={} n={} err={:?} nonzero={} ", k, d, describe(&got), p.open.short(), p.num_frames, p.error, describe(&Load::Ok { rate: 0, frames: so }));
+			}
+			let cut = (offs[k] + offs[k + 1]) / 2;
+			let got = load_static(&b[..cut]);
+			eprintln!("  k={} truncated inside: static {}", k, describe(&got));
+			let got = load_static(&b[..offs[k]]);
+			eprintln!("  k={} truncated at boundary: static {}", k, describe(&got));
+		}
+	}
+	// wasted flag with a constant 0 subframe (unary run longer than the sample size)
+	let sp = FlSpec { bps: 16, ch: 1, rate: 44100, bs: 16 };
+	let frames: Vec<FlFrame> = (0..4).map(|i| FlFrame { n: 16, subs: vec![if i == 2 { Sub::Const(0) } else { Sub::Verb((0..16).map(|t| (i * 16 + t + 1) as i64).collect()) }] }).collect();
+	let (b, _) = flac_encode(&sp, &frames, Some((2, Defect::WastedFlag)));
+	eprintln!("wasted flag on constant 0: {}", load_static(&b).short());
+	let (b, _) = flac_encode(&sp, &[], None);
+	eprintln!("no frames: {}", load_static(&b).short());
+}
+
 pub fn run(args: &Args) {
+	if std::env::var("C18_PROBE").is_ok() {
+		probe_flac();
+		return;
+	}
 	let mut rng = Rng::new(args.seed ^ 0xC18);
 	let mul = args.budget_mul * if args.thorough { 8 } else { 1 };
 	let mut s = Session::new(
